@@ -3,7 +3,7 @@ use super::c12::{check_dwarf, diff_kind, std_line};
 use super::dump;
 use super::dw::*;
 use super::gen::*;
-use super::run::{self, Api};
+use super::run::{self, Api, ConvOut};
 use mcx::space::{self, Mix};
 use mcx::{Ctx, Sub, Tier};
 
@@ -239,6 +239,103 @@ fn sub_line(tier: Tier, rel: bool, len4: bool) -> Sub {
         check_dwarf(ctx, &b.secs, cfg.big, &apis, "line", &feat, &case);
     })
     .flavours(if rel { &["rel"] } else { &["chk"] })
+}
+
+/// Every interleaving of `read_row` and `read_sequence` calls on one ConvertLineProgram
+/// (stateless exploration of the call schedule, deviation = one `read_sequence` call where
+/// the default schedule calls `read_row`): the converted program must not depend on it.
+fn sub_line_schedules(tier: Tier) -> Sub {
+    let cfgs: Vec<Cfg> = tier.pick(vec![Cfg { version: 4, fmt64: false, asz: 8, big: false }], vec![Cfg { version: 2, fmt64: false, asz: 8, big: false }, Cfg { version: 4, fmt64: false, asz: 8, big: false }, Cfg { version: 5, fmt64: true, asz: 4, big: true }]);
+    let maxlen = 3u32;
+    let nseq = space::seq_count(NSYM, 0, maxlen);
+    let len = nseq * 2 * cfgs.len() as u64;
+    let bound = format!("every instruction sequence of length 0..={} over the {}-symbol line alphabet followed by end_sequence x optional leading set_address 0x1000 x {} configs; for each program EVERY schedule of read_row / read_sequence calls on the ConvertLineProgram (explored as a tree: the default schedule calls read_row, a branch replaces one later call by read_sequence; up to 12 calls) is converted, written and read back; result (rows, file table, error class) must equal the read_row-only schedule's", maxlen, NSYM, cfgs.len());
+    Sub::new("line-call-schedules", len, &bound, move |ctx, i| {
+        let mut x = Mix(i);
+        let seq = space::seq_decode(NSYM, 0, maxlen, x.take(nseq));
+        let prefix = x.flag();
+        let cfg = *x.pick(&cfgs);
+        let mut lp = std_line(cfg, vec![]);
+        let mut insns = vec![];
+        if prefix {
+            insns.push(LI::SetAddress(0x1000));
+        }
+        for &s in &seq {
+            match line_sym(s, cfg, &lp) {
+                Some(i) => insns.push(i),
+                None => {
+                    ctx.outcome("sched:symbol-not-in-version");
+                    return;
+                }
+            }
+        }
+        insns.push(LI::EndSequence);
+        lp.insns = insns.clone();
+        let (wf, _) = line_props(cfg, &lp, &insns);
+        if !wf {
+            ctx.outcome("sched:ill-formed-program-skipped");
+            return;
+        }
+        let m = line_unit(cfg, lp, Some(AV::Data(FORM_DATA1, 2)));
+        let b = build(&m);
+        let case = |bits: u64, calls: u32| format!("{} program=[{}] schedule (call k uses read_sequence iff bit k)={:#b} of {} calls sections: {}", cfg.name(), insns.iter().map(li_name).collect::<Vec<_>>().join(", "), bits, calls, render_secs(&b.secs));
+        let entry = "ConvertLineProgram_read_row/read_sequence_schedule";
+        // observation of one schedule: Ok(dump text) / Err(error class); plus the number of calls made
+        let run_one = |ctx: &mut Ctx, bits: u64| -> Option<(Result<String, String>, u32)> {
+            ctx.eval(1);
+            let out = match run::convert(&b.secs, cfg.big, Api::Sched(bits)) {
+                Ok(o) => o,
+                Err(p) => {
+                    ctx.fail_panic(entry, &p, case(bits, 0));
+                    return None;
+                }
+            };
+            let calls = run::SCHED_CALLS.with(|c| c.get());
+            let obs = match out {
+                ConvOut::Ok(s) => match super::c12::dump_secs(&s, cfg.big) {
+                    Ok(Ok(d)) => Ok(d.text()),
+                    Ok(Err(e)) => Err(format!("output-not-readable:{}", e)),
+                    Err(_) => Err("output-read-panics".to_string()),
+                },
+                ConvOut::ConvErr(e) => Err(format!("convert-err:{}", run::err_class(&e))),
+                ConvOut::WriteErr(e) => Err(format!("write-err:{}", run::err_class(&e))),
+            };
+            Some((obs, calls))
+        };
+        let Some((base, base_calls)) = run_one(ctx, 0) else { return };
+        ctx.nontriv(1);
+        ctx.outcome(if base.is_ok() { "sched:baseline-ok" } else { "sched:baseline-err" });
+        if ctx.want_sample() {
+            ctx.sample(case(0, base_calls));
+        }
+        // explore: stack of (prefix bits, prefix length); every later position of a run may deviate
+        let mut stack: Vec<(u64, u32, u32)> = vec![(0, 0, base_calls)];
+        let mut runs = 1u64;
+        while let Some((bits, plen, calls)) = stack.pop() {
+            for pos in plen..calls.min(12) {
+                let nb = bits | (1u64 << pos);
+                let Some((obs, ncalls)) = run_one(ctx, nb) else { continue };
+                runs += 1;
+                if obs != base {
+                    let kind = match (&base, &obs) {
+                        (Ok(_), Ok(_)) => "converted-program-depends-on-call-schedule".to_string(),
+                        (Ok(_), Err(e)) => format!("schedule-fails:{}", e.split(':').take(2).collect::<Vec<_>>().join(":")),
+                        (Err(_), Ok(_)) => "schedule-succeeds-where-read_row-fails".to_string(),
+                        (Err(_), Err(_)) => "error-depends-on-call-schedule".to_string(),
+                    };
+                    let show = |r: &Result<String, String>| match r {
+                        Ok(t) => t.lines().filter(|l| l.contains("row") || l.contains("seq")).collect::<Vec<_>>().join(" / "),
+                        Err(e) => e.clone(),
+                    };
+                    ctx.fail(entry, "schedule-independent-result", &kind, format!("{}\n  read_row only : {}\n  this schedule : {}", case(nb, ncalls), show(&base), show(&obs)));
+                    return;
+                }
+                ctx.outcome("sched:agrees");
+                stack.push((nb, pos + 1, ncalls));
+            }
+        }
+        ctx.outcome_n("sched:schedules-run", runs);
+    })
 }
 
 // ---- line header / file table kits
@@ -1044,6 +1141,50 @@ fn sub_cfi(tier: Tier, rel: bool, interleaved: bool) -> Sub {
     .flavours(if rel { &["rel"] } else { &["chk"] })
 }
 
+/// Advances at the width boundaries of DW_CFA_advance_loc / loc1 / loc2 / loc4, in every
+/// encoding that can hold them (minimal and wider), converted and re-emitted.
+fn sub_cfi_advance(_tier: Tier) -> Sub {
+    let kinds: Vec<(bool, u8)> = vec![(false, 1), (false, 3), (false, 4), (true, 1)];
+    let cfgs: Vec<Cfg> = vec![Cfg { version: 4, fmt64: false, asz: 8, big: false }, Cfg { version: 4, fmt64: false, asz: 4, big: true }];
+    let deltas: Vec<u64> = vec![0, 1, 0x3e, 0x3f, 0x40, 0x41, 0xfe, 0xff, 0x100, 0x101, 0xfffe, 0xffff, 0x1_0000, 0x1_0001, 0xff_ffff];
+    let cafs: Vec<u64> = vec![1, 2, 4];
+    let prevs: Vec<u64> = vec![0, 1, 0x3f];
+    let len = deltas.len() as u64 * 4 * cafs.len() as u64 * prevs.len() as u64 * kinds.len() as u64 * cfgs.len() as u64;
+    let bound = format!("factored advance delta in {:?} x encoding {{advance_loc, advance_loc1, advance_loc2, advance_loc4}} (where the operand fits) x code_alignment_factor {:?} x preceding factored advance {:?} x section {{.debug_frame v1/v3/v4, .eh_frame v1}} x 2 configs; program: advance(prev); def_cfa_offset 16; advance(delta); def_cfa_offset 24; advance_loc 1; def_cfa_offset 32", deltas, cafs, prevs);
+    Sub::new("cfi-advance-boundaries", len, &bound, move |ctx, i| {
+        let mut x = Mix(i);
+        let d = *x.pick(&deltas);
+        let e = x.take(4);
+        let caf = *x.pick(&cafs);
+        let prev = *x.pick(&prevs);
+        let (eh, ver) = *x.pick(&kinds);
+        let cfg = *x.pick(&cfgs);
+        let adv = match e {
+            0 if d < 0x40 => Cfa::AdvanceLoc(d as u8),
+            1 if d <= 0xff => Cfa::AdvanceLoc1(d as u8),
+            2 if d <= 0xffff => Cfa::AdvanceLoc2(d as u16),
+            3 => Cfa::AdvanceLoc4(d as u32),
+            _ => {
+                ctx.outcome("cfiadv:operand-does-not-fit-encoding");
+                return;
+            }
+        };
+        let insns = vec![Cfa::AdvanceLoc(prev as u8), Cfa::DefCfaOffset(16), adv, Cfa::DefCfaOffset(24), Cfa::AdvanceLoc(1), Cfa::DefCfaOffset(32)];
+        let m = FrameM {
+            eh,
+            cfg,
+            cies: vec![CieM { version: ver, aug: Aug::none(), caf, daf: -8, ra: 16, init: vec![Cfa::DefCfa(7, 8), Cfa::Offset(16, 1)] }],
+            fdes: vec![FdeM { cie: 0, addr: 0x1000, len: 0x800_0000, lsda: None, insns: insns.clone() }],
+        };
+        ctx.nontriv(1);
+        let case = || format!("{} {} CIE version {} code_alignment_factor={} FDE instructions {:?} section: {}", cfg.name(), if eh { ".eh_frame" } else { ".debug_frame" }, ver, caf, insns, mcx::hex(&build_frame(&m)));
+        if ctx.want_sample() {
+            ctx.sample(case());
+        }
+        check_frame(ctx, &m, "cfiadv", "", &case);
+    })
+}
+
 const NFK: u64 = 14;
 
 fn sub_cfi_params(_tier: Tier) -> Sub {
@@ -1151,7 +1292,7 @@ fn sub_cfi_params(_tier: Tier) -> Sub {
 }
 
 pub fn subs(tier: Tier) -> Vec<Sub> {
-    let mut v = vec![sub_line(tier, false, false), sub_line(tier, true, false), sub_line_hdr(tier), sub_lists(tier), sub_expr(tier), sub_unit_kinds(tier), sub_cfi(tier, false, false), sub_cfi(tier, true, false), sub_cfi(tier, false, true), sub_cfi_params(tier), sub_line_regs(tier)];
+    let mut v = vec![sub_line(tier, false, false), sub_line(tier, true, false), sub_line_hdr(tier), sub_lists(tier), sub_expr(tier), sub_unit_kinds(tier), sub_cfi(tier, false, false), sub_cfi(tier, true, false), sub_cfi(tier, false, true), sub_cfi_params(tier), sub_cfi_advance(tier), sub_line_regs(tier), sub_line_schedules(tier)];
     if tier == Tier::Thorough {
         v.push(sub_line(tier, false, true));
     }
@@ -1176,6 +1317,10 @@ pub fn required() -> Vec<String> {
         "cfi:caf=256",
         "cfi:daf=0",
         "cfip:ok",
+        "cfiadv:ok",
+        "sched:agrees",
+        "sched:baseline-ok",
+        "cfiadv:reconvert-identical",
         "linereg:ok",
         "linereg:reconvert-identical",
     ]
